@@ -352,6 +352,16 @@ def run_unit(unit):
                     want, _, _ = expected_convert("binary", st[0], ns.Command, None, "pretty")
                     if ANSI.sub("", r.stdout) != want:
                         acc.violation({"cmd": "convert", "clause": "process-output-differs"}, d, "subprocess output differs from the library's rendering")
+            # standard input ("-") as the file, binary and hex
+            for fin, data in (("binary", st[0] + st[1]), ("hex", text.hex_text(st[0] + st[1], "lower", " ", None, "", "\n"))):
+                acc.count("evaluations")
+                acc.count("subprocesses")
+                acc.count("states")
+                r = subprocess.run([sys.executable, "-m", "tpmstream", "convert", "--in", fin, "-"], input=data, capture_output=True, env=env, timeout=300)
+                want, _, _ = expected_convert(fin, data, ns.CommandResponseStream, None, "pretty")
+                d = {"harness": "cli-subprocess", "argv": ["convert", "--in", fin, "-"], "file": data.hex()}
+                if r.returncode != 0 or ANSI.sub("", r.stdout.decode()) != want:
+                    acc.violation({"cmd": "convert", "clause": "process-stdin", "in": fin}, d, f"convert --in {fin} - (standard input): exit status {r.returncode}, output {'equal' if ANSI.sub('', r.stdout.decode()) == want else 'differs from the library'}; stderr {r.stderr.decode()[-160:]}")
     acc.count("transitions", acc.n["cli_runs"] + acc.n["subprocesses"])
     acc.sample({"unit": unit["label"], "cli_runs": acc.n["cli_runs"]}, cap=4)
     return acc
